@@ -1806,8 +1806,31 @@ def r121(ctx: Ctx) -> RuleReport:
     model_cls = ctx.repo.cls('penman.model', 'Model')
     consumers = {'rearrange': ctx.repo.func('penman.layout', 'rearrange'), 'reconfigure': ctx.repo.func('penman.layout', 'reconfigure')}
     found = {}
-    for call, ts in ctx.cg.calls_in(main):
-        if any(t.kind == 'func' and t.func.qualname == '_make_sort_key' for t in ts) and len(call.args) >= 3:
+    site_calls = [(call, call) for call, ts in ctx.cg.calls_in(main) if any(t.kind == 'func' and t.func.qualname == '_make_sort_key' for t in ts) and len(call.args) >= 3]
+    # a local helper of main that forwards to _make_sort_key: def make_key(keys, key_funcs=TABLE): return _make_sort_key(keys, model, key_funcs)
+    import copy as _copy
+    for h in [f for f in ctx.repo.all_functions() if f.parent is main]:
+        inner = [c for c, ts in ctx.cg.calls_in(h) if any(t.kind == 'func' and t.func.qualname == '_make_sort_key' for t in ts) and len(c.args) >= 3]
+        if len(inner) != 1:
+            continue
+        a_ = h.node.args
+        hp = [x.arg for x in a_.posonlyargs + a_.args]
+        dflt = dict(zip(hp[::-1], a_.defaults[::-1]))
+        for call, ts in ctx.cg.calls_in(main):
+            if isinstance(call.func, ast.Name) and call.func.id == h.name:
+                env = dict(dflt)
+                env.update(dict(zip(hp, call.args)))
+                env.update({k.arg: k.value for k in call.keywords if k.arg})
+
+                class S_(ast.NodeTransformer):
+                    def visit_Name(self, nd):
+                        return _copy.deepcopy(env[nd.id]) if nd.id in env and isinstance(nd.ctx, ast.Load) else nd
+                eff = S_().visit(_copy.deepcopy(inner[0]))
+                ast.copy_location(eff, call)
+                ast.fix_missing_locations(eff)
+                site_calls.append((eff, call))
+    for call, at_ in site_calls:
+        if True:
             src = norm(call.args[0])
             which = 'REARRANGE_KEYS' if 'rearrange' in src else ('RECONFIGURE_KEYS' if 'reconfigure' in src else None)
             if which is None:
